@@ -134,6 +134,9 @@ struct Probe {
 					const int first = sh->child(par, 0);
 					ok = ansRank(state) <= ansRank(first);
 				}
+				// a region head below an orthogonal region, not its first sub-state: the mean over the orthogonal region's
+				// sub-states stays positive, and a region with utility 0 may still be entered with its siblings
+				if (par >= 0 && !sh->leaf(state) && sh->kind[par] == 2 && sh->prong[state] > 0) ok = true;
 			}
 			if (!ok) u = 1 + (int)(h(state, 4) % 8);
 		}
